@@ -613,9 +613,12 @@ impl Interp {
                 return Err(self.wrap(fail("bound", "not-above-ids", format!("bound {} does not exceed allocated id {}", h.bound, id))));
             }
         }
-        let want_v = self.version.unwrap_or((1, 6));
-        if self.start == 1 && h.version() != want_v {
-            return Err(self.wrap(fail("version", "header", format!("header version {:?}, expected {:?}", h.version(), want_v))));
+        // "the version set on the builder": when none was set the statement fixes no value
+        // (the round trip still compares the loaded header with the built one)
+        if let Some(want_v) = self.version {
+            if h.version() != want_v {
+                return Err(self.wrap(fail("version", "header", format!("header version {:?}, expected {:?}", h.version(), want_v))));
+            }
         }
         Ok((m, self))
     }
@@ -869,14 +872,20 @@ fn sub_c13_type_sweep(input: &[u8], st: &mut Stats) -> R {
     let env = it.env.clone();
     let has_id_param = mm.mi.params.iter().any(|p| p.0 == "result_id");
     // plan once, replay the same arguments
-    let mut none = || -> u32 { panic!("harness: type sweep needs no fresh id") };
+    // a plan that asks for a fresh id (explicit result id) is discarded and re-drawn
+    let asked = std::cell::Cell::new(false);
+    let mut none = || -> u32 {
+        asked.set(true);
+        0
+    };
     let planned = {
         let mut tries = 0;
         loop {
             let mut c2 = Cs::new(&stream[tries..]);
-            let r = std::panic::catch_unwind(std::panic::AssertUnwindSafe(|| plan_call(&mut c2, mm, &env, &mut none)));
+            asked.set(false);
+            let r = plan_call(&mut c2, mm, &env, &mut none);
             match r {
-                Ok(Some(p)) if p.explicit_id.is_none() => break Some(p),
+                Some(p) if p.explicit_id.is_none() && !asked.get() => break Some(p),
                 _ => {
                     tries += 1;
                     if tries > 40 {
@@ -924,6 +933,9 @@ pub fn c13_run(ctx: &Ctx) {
     run_regress(ctx, C13_SUBS);
     drive_enum(ctx, &C13_SUBS[0], pools().types.len() as u64);
     drive_random(ctx, &C13_SUBS[1], ctx.n(30_000, 15_000_000), 1500);
+    if !ctx.quick() && !ctx.failed() {
+        crate::fuzzing::drive_fuzz(ctx, "builder", 200000);
+    }
 }
 
 pub fn c13_finish(ctx: &Ctx) -> i32 {
@@ -1307,13 +1319,16 @@ pub fn c06_run(ctx: &Ctx) {
     drive_enum(ctx, &C06_SUBS[1], pools().emitting.len() as u64 * 3);
     drive_random(ctx, &C06_SUBS[2], ctx.n(20_000, 10_000_000), 2500);
     drive_random(ctx, &C06_SUBS[3], ctx.n(8_000, 4_000_000), 2500);
+    if !ctx.quick() && !ctx.failed() {
+        crate::fuzzing::drive_fuzz(ctx, "builder", 200000);
+    }
 }
 
 pub fn c06_finish(ctx: &Ctx) -> i32 {
     crate::engine::finish(
         ctx,
         Finish {
-            rule: "cases: (a) per-method sweep: every instruction-emitting Builder method (1153, call sites generated from the working tree by build.rs) x3 in the smallest complete history; (b) complete histories: optional set_version, ids from b.id(), int/float types, module-level/type/global calls, 0-3 functions x 0-3 blocks of block instructions (append and insert_*), each block ended by a terminator method, each function ended, module-level calls interleaved anywhere; arguments grammar-conforming (enumerant parameters via additional_params, optionals as trailing run, typed literals of the declared width). (c) parked histories: 1-3 functions built interleaved - a function or block is deselected (select_function(None) / select_block(None)) at random points, other functions are begun or resumed, and it is later re-selected (select_function(Some(i)) + select_block(Some(j))) and completed. Oracle: per call, the emitted instruction (found where the model R4 places it) equals the method's opcode + arguments in grammar order; at the end load_words(module().assemble()) is Ok and field-wise equal to the built module; version = the one set (default 1.6); bound = next id > every id used. non-trivial = history with >= 1 function, >= 2 blocks, >= 6 calls (sweep: the swept method was called); distinct = hash of the assembled words.",
+            rule: "cases: (a) per-method sweep: every instruction-emitting Builder method (1153, call sites generated from the working tree by build.rs) x3 in the smallest complete history; (b) complete histories: optional set_version, ids from b.id(), int/float types, module-level/type/global calls, 0-3 functions x 0-3 blocks of block instructions (append and insert_*), each block ended by a terminator method, each function ended, module-level calls interleaved anywhere; arguments grammar-conforming (enumerant parameters via additional_params, optionals as trailing run, typed literals of the declared width). (c) parked histories: 1-3 functions built interleaved - a function or block is deselected (select_function(None) / select_block(None)) at random points, other functions are begun or resumed, and it is later re-selected (select_function(Some(i)) + select_block(Some(j))) and completed. Oracle: per call, the emitted instruction (found where the model R4 places it) equals the method's opcode + arguments in grammar order; at the end load_words(module().assemble()) is Ok and field-wise equal to the built module; version = the one set on the builder; bound = next id > every id used. non-trivial = history with >= 1 function, >= 2 blocks, >= 6 calls (sweep: the swept method was called); distinct = hash of the assembled words.",
             assumptions: vec![
                 "excluded: begin_block_no_label (label-less block cannot be expressed in a binary); insert_into_block / insert_types_global_values with caller-made instructions; spec_constant_op only with opcodes whose embedded operand list can be empty; execution_mode / execution_mode_id only with modes whose parameters fit the [u32] signature; with several parameterised masks in one call only the last may carry parameters (single additional_params argument)".into(),
                 "histories whose assembled words the reference parser R1 does not accept are generator errors and skipped (counted as skipped_arguments_not_conforming)".into(),
